@@ -292,7 +292,7 @@ def main(tier, replay=None):
     forced = forced_points()
     for k, s in enumerate(forced):
         pts.append((s, ENERGIES[k % len(ENERGIES)]))
-    n_rand = 700 if thorough else 45
+    n_rand = 400 if thorough else 45
     tries = 0
     while len(pts) < len(forced) + n_rand and tries < 20 * n_rand:
         tries += 1
